@@ -246,6 +246,14 @@ def build_copula_grid(case, model):
             return S.CTMCCredit(h=h, level_a=levels, model=model, symmetric_grid=g["symmetric"])
         except ValueError as e:
             raise GridRejected(str(e))
+    if g["type"] == "axes":
+        # a grid the user assembles (base CTMCGrid): per-axis extents of their own, far more states on one side
+        axes = []
+        for nl, nr in zip(g["n_left"], g["n_right"]):
+            axes.append(np.array([-h * k for k in range(nl, 0, -1)] + [0.0] + [h * k for k in range(1, nr + 1)]))
+        if len(set(g["n_left"])) != 1:
+            raise GridRejected("one origin index for all axes")
+        return S.CTMCGrid(h=h, origin_coordinate=g["n_left"][0], axes=axes)
     if g["type"] == "uniform":
         grid = S.CTMCUniformGrid(h=h, model=model, truncation_probability=g["p"])
     elif g["type"] == "uniform-fixed":
